@@ -13,6 +13,8 @@ mod checks_d;
 mod checks_e;
 #[cfg(feature = "kernels")]
 mod checks_k;
+#[cfg(feature = "kernels")]
+mod e8;
 mod e1;
 mod e3;
 mod e7;
